@@ -508,6 +508,115 @@ theorem unknown_command_line (cfg : Cfg) (s0 : S) (l rest : Bytes) (hi : s0.inp 
       · cases hp
       · cases hp
 
+/-! ### the general shape: a handler that stays on the line -/
+
+/-- What a handler did, seen from the state `s2` after the command header, when the unread input was
+    `t'` CRLF `rest`: it consumed a prefix `c2` of `t'` as command text and stopped there
+    (`ended = false`), or it consumed all of `t'` and the CRLF (`ended = true`, Decoder.crlf set);
+    no literal is open, and it wrote neither a tagged reply nor a continuation request. -/
+def Shape (rest t' : Bytes) (s2 s3 : S) : Prop :=
+  ∃ (c2 t'' : Bytes) (ended : Bool) (new : List Event),
+    t' = c2 ++ t'' ∧ (ended = true → t'' = []) ∧
+    s3.inp = (if ended then rest else t'' ++ 13 :: 10 :: rest) ∧
+    s3.pos = s2.pos + c2.length + (if ended then 2 else 0) ∧
+    s3.roles = List.replicate (c2.length + (if ended then 2 else 0)) Role.text ++ s2.roles ∧
+    s3.lit = none ∧ s3.crlf = ended ∧
+    s3.evs = new ++ s2.evs ∧ new ≠ [] ∧ new.filter isTagged = [] ∧ (∀ p, Event.cont p ∉ new) ∧
+    (∀ e ∈ new, e ≠ Event.opaque)
+
+/-- A command whose handler stays on the line `l` CRLF (`Shape`): the server consumes exactly
+    `l` CRLF as command text, writes one tagged reply carrying the line's leading atom and no
+    continuation request, and leaves the unread input at `rest`. -/
+theorem command_line_generic (cfg : Cfg) (hfix : cfg.fx.append = true) (s0 : S) (l rest : Bytes)
+    (hi : s0.inp = l ++ 13 :: 10 :: rest) (hl : noEol l) (tag name : Bytes) (s2 : S)
+    (hh : cmdHeader s0.reset = (some (tag, name), s2)) (hno : handlerOf cfg name ≠ .opaque)
+    (bu : Bool) (e : Option Err) (s3 : S) (hr : runHandler name (handlerOf cfg name) s2 = (bu, e, s3))
+    (hshape : ∀ t', s2.inp = t' ++ 13 :: 10 :: rest → noEol t' → s2.lit = none → s2.crlf = false →
+      Shape rest t' s2 s3) :
+    ∃ s1, readCommand cfg s0 = (true, s1) ∧ s1.inp = rest ∧ s1.pos = s0.pos + l.length + 2 ∧
+      s1.roles = List.replicate (l.length + 2) Role.text ++ s0.roles ∧
+      tag = l.takeWhile isAtomChar ∧ tag ≠ [] ∧
+      (∃ new cls, s1.evs = new ++ s0.evs ∧ new.filter isTagged = [Event.tagged tag cls] ∧
+        ∀ p, Event.cont p ∉ new) := by
+  have hlr : s0.reset.lit = none := rfl
+  have hir : s0.reset.inp = l ++ 13 :: 10 :: rest := hi
+  obtain ⟨c, t', hct, adv⟩ := cmdHeader_onLine hh hlr l rest hir hl
+  have hcr := cmdHeader_crlf hh hlr l rest hir hl
+  obtain ⟨htag, htne⟩ := cmdHeader_tag hh
+  have hi2 : s2.inp = t' ++ 13 :: 10 :: rest := by
+    have := adv.inp; rw [hir, hct, List.append_assoc] at this
+    exact (List.append_cancel_left this).symm
+  have ht' : noEol t' := (noEol_append (hct ▸ hl)).2
+  obtain ⟨c2, t'', ended, new, htc, hend, i3, p3, r3, l3, c3, e3, hnn, hnt, hnc, hno'⟩ :=
+    hshape t' hi2 ht' (by rw [adv.lit]; rfl) hcr
+  have ht'' : noEol t'' := (noEol_append (htc ▸ ht')).2
+  -- DiscardLine
+  have hd : (s3.discardLine cfg.fx).inp = rest ∧
+      (s3.discardLine cfg.fx).pos = s0.pos + l.length + 2 ∧
+      (s3.discardLine cfg.fx).roles = List.replicate (l.length + 2) Role.text ++ s0.roles ∧
+      (s3.discardLine cfg.fx).evs = s3.evs := by
+    have hlen : l.length = c.length + (c2.length + t''.length) := by
+      rw [hct, htc, List.length_append, List.length_append]
+    cases ended with
+    | true =>
+      have h0 := hend rfl
+      subst h0
+      have : s3.discardLine cfg.fx = s3 := by unfold S.discardLine; simp [c3]
+      rw [this]
+      simp only [if_true] at i3 p3 r3
+      refine ⟨i3, ?_, ?_, rfl⟩
+      · rw [p3, adv.pos]; simp at hlen; show s0.pos + c.length + c2.length + 2 = _; omega
+      · rw [r3, adv.roles, ← List.append_assoc, List.replicate_append_replicate]
+        show List.replicate (c2.length + 2 + c.length) Role.text ++ s0.roles = _
+        simp at hlen
+        congr 2; omega
+    | false =>
+      simp only [Bool.false_eq_true, if_false, Nat.add_zero] at i3 p3 r3
+      obtain ⟨di, dp, dr, _, _, _, de, _⟩ := discardLine_line cfg.fx s3 t'' rest l3 c3 i3 ht''
+      refine ⟨di, ?_, ?_, de⟩
+      · rw [dp, p3, adv.pos]; show s0.pos + c.length + c2.length + t''.length + 2 = _; omega
+      · rw [dr, r3, adv.roles, ← List.append_assoc, ← List.append_assoc, List.replicate_append_replicate,
+          List.replicate_append_replicate]
+        show List.replicate (t''.length + 2 + c2.length + c.length) Role.text ++ s0.roles = _
+        congr 2; omega
+  obtain ⟨di, dp, dr, de⟩ := hd
+  have hhead : (s3.evs.head? == some Event.opaque) = false := by
+    rw [e3]
+    cases new with
+    | nil => exact absurd rfl hnn
+    | cons a t =>
+      have := hno' a (by simp)
+      simp only [List.cons_append, List.head?_cons]
+      cases a <;> simp_all
+  refine ⟨finishCommand cfg tag bu e s3, ?_, ?_, ?_, ?_, ?_, htne, ?_⟩
+  · unfold readCommand
+    rw [hh]
+    dsimp only
+    split
+    · rename_i hop; exact absurd hop hno
+    · rw [hr]
+      dsimp only
+      simp [hhead]
+  · unfold finishCommand; dsimp only; split_ifs <;> simp [S.emit, di]
+  · unfold finishCommand; dsimp only; split_ifs <;> simp [S.emit, dp]
+  · unfold finishCommand; dsimp only; split_ifs <;> simp [S.emit, dr]
+  · rw [htag, hir]
+    exact takeWhile_line isAtomChar (by decide) l rest
+  · obtain ⟨byes, hfin, hb⟩ := finishCommand_events cfg hfix tag bu e s3
+    refine ⟨byes ++ [Event.tagged tag (replyCls e)] ++ new, replyCls e, ?_, ?_, ?_⟩
+    · rw [hfin, de, e3, adv.evs]; simp [S.reset]
+    · have hbf : byes.filter isTagged = [] := by
+        rw [List.filter_eq_nil_iff]
+        intro x hx; rw [hb x hx]; simp [isTagged]
+      simp only [List.filter_append, hbf, hnt, List.nil_append, List.append_nil]
+      rfl
+    · intro p hp
+      simp only [List.mem_append, List.mem_singleton] at hp
+      rcases hp with (hp | hp) | hp
+      · have := hb _ hp; cases this
+      · cases hp
+      · exact hnc p hp
+
 /-! ### against the RFC-side framing -/
 
 theorem atomChar_agree : ∀ c, c < 127 → 32 ≤ c → isAtomChar c = FramingSpec.isAtomChar c := by decide
